@@ -370,7 +370,7 @@ def projection(name):
     if name not in _PROJ:
         import cartopy.crs as ccrs
 
-        _PROJ[name] = {"robinson": ccrs.Robinson(), "pc180": ccrs.PlateCarree(central_longitude=180)}[name]
+        _PROJ[name] = {"robinson": ccrs.Robinson(), "robinson180": ccrs.Robinson(central_longitude=180), "pc180": ccrs.PlateCarree(central_longitude=180)}[name]
     return _PROJ[name]
 
 
